@@ -222,6 +222,21 @@ pub struct Pase {
     pub(crate) session_timeout: Option<SessionEstTimeout>,
 }
 
+#[cfg(feature = "verif")]
+impl Pase {
+    /// `(window open, failed PAKE attempts in this window, window expiry ticks, a PASE session
+    /// establishment is being tracked)` - read-only projection for the verification harness.
+    pub fn verif_state(&self) -> (bool, u8, u64, bool) {
+        let (open, failures, expiry) = self
+            .comm_window
+            .as_opt_ref()
+            .map(|w| (true, w.pake_failures, w.window_expiry.as_ticks()))
+            .unwrap_or((false, 0, 0));
+
+        (open, failures, expiry, self.session_timeout.is_some())
+    }
+}
+
 impl Pase {
     /// Create a new PASE state
     #[inline(always)]
